@@ -112,6 +112,7 @@ def freshness_polarity(ctx):
         p = g.path_avoiding(g.entry, lnodes, pops)
         ctx.check(p is None, "evict-before-reload", db.where(ld),
                   "stale template is reloaded without first being evicted: _load's second-chance read returns the stale object", "pop(uri) precedes _load on every path")
+        ctx.check(len(ld.args) == 2 and src(ld.args[1]) == "uri", "reload-same-uri", db.where(ld), "the stale template is reloaded under %s instead of the uri it was requested by: a template registered under an alias (put_template) vanishes from the lookup after its first refresh" % (src(ld.args[1]) if len(ld.args) > 1 else None), "reloaded under the requested uri")
         ctx.check(src(ld.args[0]) == "template.filename", "reload-same-file", db.where(ld), "reloads %s" % src(ld.args[0]), "reloads template.filename")
     # memory templates are never checked
     first = ck.body[0] if not isinstance(ck.body[0], ast.Expr) else ck.body[1]
@@ -152,6 +153,15 @@ def search_order(ctx):
     ctx.check(bool(nm) and all(x.endswith("TopLevelLookupException") for x in nm), "exhaustion", db.where(lp), "exhausting the directories raises %s" % nm, "raises TopLevelLookupException")
     ctx.check(is_subclass(db, "exceptions", "TopLevelLookupException", "TemplateLookupException"), "exception-hierarchy", "mako/exceptions.py",
               "TopLevelLookupException is not a TemplateLookupException: has_template would let it escape", "TopLevelLookupException < TemplateLookupException")
+    # the has_template that TemplateLookup actually uses: every True answer comes from a successful get_template
+    eff = "lookup.TemplateLookup.has_template" if db.has("lookup.TemplateLookup.has_template") else "lookup.TemplateCollection.has_template"
+    hfn = db.func(eff)
+    gcfg = cfgmod.function_cfg(hfn)
+    gets = [x for c in calls(hfn, "self.get_template") for x in stmt_nodes(gcfg, c)]
+    sup = [r for r in walk_func(hfn) if isinstance(r, ast.Return) and isinstance(r.value, ast.Call) and "has_template" in (dotted(r.value.func) or "")]
+    for r in [r for r in walk_func(hfn) if isinstance(r, ast.Return) and isinstance(r.value, ast.Constant) and r.value.value is True]:
+        p = gcfg.path_avoiding(gcfg.entry, gcfg.nodes_of(r), gets)
+        ctx.check(p is None, "has_template.true-via-get:%d" % (r.lineno - hfn.lineno), db.where(r), "%s answers True on a path that never asks get_template (%s): a cached URI whose file has vanished is still reported as present" % (eff, gcfg.fmt_path(p)), "True only after get_template succeeded")
     ht = db.func("lookup.TemplateCollection.has_template")
     hs = [h for n in walk_func(ht) if isinstance(n, ast.Try) for h in n.handlers]
     ctx.check(any(h.type is not None and "TemplateLookupException" in src(h.type) and any(isinstance(s, ast.Return) and const(s.value) is False for s in h.body) for h in hs),
